@@ -31,7 +31,7 @@ import (
 // the JSON encoder are silenced in the engine (natively they print).
 
 func vdWrite(c *color.Color, format string, args ...any) {}
-func vdEncode(e *json.Encoder, v any) error             { return nil }
+func vdEncode(e *json.Encoder, v any) error              { return nil }
 
 type vdResolver struct {
 	main  string
@@ -53,18 +53,23 @@ func (r *vdResolver) IncludePaths() []string { return nil }
 const vdBackend = "backend b {\n  .host = \"example.com\";\n}\n"
 
 var VdPrograms = []struct {
-	main  string
-	incls map[string]string
+	main   string
+	incls  map[string]string
+	syntax bool // by construction: the main file or a module it reaches has a syntax error
 }{
-	{vdBackend + "sub vcl_recv {\n  #FASTLY RECV\n  set req.backend = b;\n  return(lookup);\n}\n", nil},                                                  // 0 clean
-	{vdBackend + "sub vcl_recv {\n  #FASTLY RECV\n  set req.backend = b;\n  set req.http.A = req.http.undefined.variable.x;\n}\n", nil},                // 1 error(s)
-	{vdBackend + "sub vcl_recv {\n  set req.backend = b;\n  return(lookup);\n}\n", nil},                                                                // 2 missing boilerplate macro (a non-error diagnostic)
-	{vdBackend + "sub vcl_recv {\n  #FASTLY RECV\n  set req.backend = b\n}\n", nil},                                                                     // 3 syntax error in the main file
-	{vdBackend + "include \"inc\";\nsub vcl_recv {\n  #FASTLY RECV\n  set req.backend = b;\n}\n", map[string]string{"inc": "sub inc_sub {\n  set req.http.A = \n}\n"}}, // 4 syntax error in an included module
-	{vdBackend + "include \"inc\";\nsub vcl_recv {\n  #FASTLY RECV\n  set req.backend = b;\n  call inc_sub;\n}\n", map[string]string{"inc": "sub inc_sub {\n  set req.http.A = std.nosuchfunction();\n}\n"}}, // 5 error in an included module
-	{"set req.http.A = \"1\";\n", nil},                                                                                                                 // 6 statement-only snippet
-	{vdBackend + "sub vcl_recv {\n  #FASTLY RECV\n  set req.backend = b;\n  unset req.http.X;\n  restart;\n}\nsub unused_sub {\n  esi;\n}\n", nil},                   // 7 several diagnostics of different rules
-	{vdBackend + "include \"missing\";\nsub vcl_recv {\n  #FASTLY RECV\n  set req.backend = b;\n}\n", nil},                                                  // 8 missing include
+	{vdBackend + "sub vcl_recv {\n  #FASTLY RECV\n  set req.backend = b;\n  return(lookup);\n}\n", nil, false},                                                                                                      // 0 clean
+	{vdBackend + "sub vcl_recv {\n  #FASTLY RECV\n  set req.backend = b;\n  set req.http.A = req.http.undefined.variable.x;\n}\n", nil, false},                                                                      // 1 error(s)
+	{vdBackend + "sub vcl_recv {\n  set req.backend = b;\n  return(lookup);\n}\n", nil, false},                                                                                                                      // 2 missing boilerplate macro (a non-error diagnostic)
+	{vdBackend + "sub vcl_recv {\n  #FASTLY RECV\n  set req.backend = b\n}\n", nil, true},                                                                                                                           // 3 syntax error in the main file
+	{vdBackend + "include \"inc\";\nsub vcl_recv {\n  #FASTLY RECV\n  set req.backend = b;\n}\n", map[string]string{"inc": "sub inc_sub {\n  set req.http.A = \n}\n"}, true},                                        // 4 syntax error in an included module
+	{vdBackend + "include \"inc\";\nsub vcl_recv {\n  #FASTLY RECV\n  set req.backend = b;\n  call inc_sub;\n}\n", map[string]string{"inc": "sub inc_sub {\n  set req.http.A = std.nosuchfunction();\n}\n"}, false}, // 5 error in an included module
+	{"set req.http.A = \"1\";\n", nil, false}, // 6 statement-only snippet
+	{vdBackend + "sub vcl_recv {\n  #FASTLY RECV\n  set req.backend = b;\n  unset req.http.X;\n  restart;\n}\nsub unused_sub {\n  esi;\n}\n", nil, false},                                                                                                               // 7 several diagnostics of different rules
+	{vdBackend + "include \"missing\";\nsub vcl_recv {\n  #FASTLY RECV\n  set req.backend = b;\n}\n", nil, false},                                                                                                                                                       // 8 missing include
+	{vdBackend + "include \"inc\";\ninclude \"good\";\nsub vcl_recv {\n  #FASTLY RECV\n  set req.backend = b;\n}\n", map[string]string{"inc": "sub inc_sub {\n  set req.http.A = \n}\n", "good": "sub good_sub {\n  esi;\n}\n"}, true},                                  // 9 a module with a syntax error, then a module that parses
+	{vdBackend + "include \"good\";\ninclude \"inc\";\nsub vcl_recv {\n  #FASTLY RECV\n  set req.backend = b;\n}\n", map[string]string{"inc": "sub inc_sub {\n  set req.http.A = \n}\n", "good": "sub good_sub {\n  esi;\n}\n"}, true},                                  // 10 the other order
+	{vdBackend + "sub vcl_recv {\n  #FASTLY RECV\n  set req.backend = b;\n  include \"binc\";\n  include \"bgood\";\n}\n", map[string]string{"binc": "set req.http.A = ;\n", "bgood": "set req.http.B = \"1\";\n"}, true},                                               // 11 the same inside a subroutine
+	{vdBackend + "include \"outer\";\nsub vcl_recv {\n  #FASTLY RECV\n  set req.backend = b;\n}\n", map[string]string{"outer": "include \"inc\";\ninclude \"good\";\n", "inc": "sub inc_sub {\n  set req.http.A = \n}\n", "good": "sub good_sub {\n  esi;\n}\n"}, true}, // 12 nested
 }
 
 func vdConfig(tag string, rules map[string]string) *config.Config {
@@ -82,6 +87,9 @@ func vdConfig(tag string, rules map[string]string) *config.Config {
 func vdExpected(p int, rules map[string]string) (wantExit bool, errs, warns, infos int, ok bool) {
 	prog := VdPrograms[p]
 	rs := &vdResolver{prog.main, prog.incls}
+	if prog.syntax {
+		return true, 0, 0, 0, true // a syntax error anywhere fails the run, whatever the linter keeps of it
+	}
 	vcl, err := parser.New(lexer.NewFromString(prog.main, lexer.WithFile("main.vcl"))).ParseVCLOrSnippet()
 	if err != nil {
 		return true, 0, 0, 0, true
